@@ -10,7 +10,7 @@
    the same statement is tested on every run against an independent series in 100-digit arithmetic. *)
 From Coq Require Import Reals List Lra.
 From Coquelicot Require Import Coquelicot.
-From Manif Require Import Scalar Mat Group RInst Generic LieSpec SO2 SE2 SO3 SE3 SE23 SGal3 Rn Ode ExpSpec Exp_SE2 Exp_SO3 Exp_SE3 Exp_SE23 Exp_SGal3.
+From Manif Require Import Scalar Mat Group RInst Generic LieSpec SO2 SE2 SO3 SE3 SE23 SGal3 Rn Ode ExpSpec Exp_SE2 Exp_SO3 Exp_SE3 Exp_SE23 Exp_SGal3 Jr_SE2 Taylor_SE2 Taylor_SO3.
 Import ListNotations.
 Local Open Scope R_scope.
 
@@ -45,6 +45,35 @@ Theorem C02_exp_SGal3_generic eps a b c d e f x y z tau : 0 < eps -> eps < x * x
            (g_transform (SGal3 RS eps) (g_exp (SGal3 RS eps) [a; b; c; d; e; f; x; y; z; tau])).
 Proof. exact (SGal3_exp_matexp eps a b c d e f x y z tau). Qed.
 Print Assumptions C02_exp_SGal3_generic.
+
+(* SE2 below the switch-over (the Taylor branch, theta^2 < eps): the translation part of the model's exp is within
+   tay_bound(theta) (|x| + |y|) of the closed form ex, ey (which IS the matrix exponential: C02_exp_SE2_generic's G(1), for every
+   theta <> 0), where tay_bound(theta) = theta^4/120 + |theta|^5/720 + the two rounding gaps of the code's literals Scalar(1./6.),
+   Scalar(1./24.) times theta^2, |theta|^3: uniformly at most eps^2/100 + 2 eps/10^17 relative to the size of the translation;
+   at theta = 0 exp is the translation exactly *)
+Theorem C02_SE2_taylor_bound eps x y th : 0 < eps -> th * th < eps -> th <> 0 ->
+  exists tx ty, se2_exp RS eps [x; y; th] = [tx; ty; cos th; sin th] /\
+    Rabs (tx - ex x y th) <= tay_bound th * (Rabs x + Rabs y) /\ Rabs (ty - ey x y th) <= tay_bound th * (Rabs x + Rabs y).
+Proof. intros _. exact (se2_exp_taylor_bound eps x y th). Qed.
+Theorem C02_SE2_taylor_uniform eps x y th : 0 < eps -> eps <= 1 -> th * th < eps -> th <> 0 ->
+  exists tx ty, se2_exp RS eps [x; y; th] = [tx; ty; cos th; sin th] /\
+    Rabs (tx - ex x y th) <= (eps * eps / 100 + eps / 50000000000000000) * (Rabs x + Rabs y) /\
+    Rabs (ty - ey x y th) <= (eps * eps / 100 + eps / 50000000000000000) * (Rabs x + Rabs y).
+Proof. intros H. exact (se2_exp_taylor_uniform eps H x y th). Qed.
+Theorem C02_SE2_exp_zero eps x y : 0 < eps -> se2_exp RS eps [x; y; 0] = [x; y; 1; 0].
+Proof. exact (fun H => se2_exp_zero eps H x y). Qed.
+Print Assumptions C02_SE2_taylor_uniform.
+
+(* SO3 below the switch-over (|t|^2 <= eps): exp is the quaternion (t/2, 1); against the exact exponential
+   (sin(th/2) t/th, cos(th/2)) the error is at most |t_i| th^2/48 in the vector part and th^2/8 in w *)
+Theorem C02_SO3_taylor_bound eps x y z : 0 < eps -> 0 < x * x + y * y + z * z -> x * x + y * y + z * z <= eps ->
+  so3_exp RS eps [x; y; z] = [x / 2; y / 2; z / 2; 1] /\
+  Rabs (x / 2 - sin (sqrt (x * x + y * y + z * z) / 2) * (x / sqrt (x * x + y * y + z * z))) <= Rabs x * (x * x + y * y + z * z) / 48 /\
+  Rabs (y / 2 - sin (sqrt (x * x + y * y + z * z) / 2) * (y / sqrt (x * x + y * y + z * z))) <= Rabs y * (x * x + y * y + z * z) / 48 /\
+  Rabs (z / 2 - sin (sqrt (x * x + y * y + z * z) / 2) * (z / sqrt (x * x + y * y + z * z))) <= Rabs z * (x * x + y * y + z * z) / 48 /\
+  Rabs (1 - cos (sqrt (x * x + y * y + z * z) / 2)) <= (x * x + y * y + z * z) / 8.
+Proof. intros _. exact (so3_exp_taylor_bound eps x y z). Qed.
+Print Assumptions C02_SO3_taylor_bound.
 
 (* non-vacuity: the hypotheses are met far from the small-angle region, beyond pi and for large translations *)
 Example C02_nonvacuous : (25 / 1125899906842624 <= 7 * 7) /\ (25 / 1125899906842624 < 3 * 3 + 4 * 4 + 12 * 12).
